@@ -177,6 +177,10 @@ func ReplyFor(f Fault) (int, string, string) {
 	if f.Class == "x3" {
 		return 330 + f.K, "intermediate reply by script", ""
 	}
+	if f.Shape == "toomany" { // RFC 5321 4.5.3.1.10: "too many recipients" - 452, or the historical 552, with the enhanced code X.5.3
+		esc := d + ".5.3"
+		return map[string]int{"4": 452, "5": 552}[d], esc + " too many recipients", esc
+	}
 	esc := fmt.Sprintf("%s.5.%d", d, f.K)
 	if f.Shape == "xlead" { // an enhanced status code of the other class than the reply code
 		esc = fmt.Sprintf("%s.5.%d", map[string]string{"4": "5", "5": "4"}[d], f.K)
